@@ -126,6 +126,7 @@ def main(run):
     run.prove()
     model_ok = run.build_model()
     run.run_findings()
+    run.pylite(["lifecycle"])
     if model_ok:
         cs = cases(run)
         for c in cs:
